@@ -550,7 +550,9 @@ async def read_leaf(part, p: dict, raw_expect: bytes, blen: int, stats: dict) ->
         sizes = p["sizes"]
         out = []
         i = 0
-        per_chunk_ok = cte_eff == "base64" and not ce_eff
+        # the library's own consumers (request.post() file fields, BodyPartReaderPayload.write) decode every
+        # chunk on its own, so chunk edges must fall where the transfer coding can be cut
+        per_chunk_ok = cte_eff in ("base64", "quoted-printable") and not ce_eff
         dec = bytearray()
         while not part.at_eof():
             n = sizes[i % len(sizes)]
